@@ -13,6 +13,7 @@ import H263V.Model.Show
 import H263V.Spec.GenCases
 import H263V.Spec.GenHeaders
 import H263V.DriverUnits
+import H263V.Model.Script
 
 open H263V H263V.Util H263V.Show H263V.State
 
@@ -135,6 +136,18 @@ def runS (rest : String) : String :=
     | _ => "bad-op"
   "S " ++ " || ".intercalate outs
 
+def runR (spec : Bool) (w src ops : String) : String :=
+  match w.toNat?, unhex src with
+  | some W, some bytes =>
+    let script := (Script.parseOps ops.toList).1
+    if spec then
+      let (outs, c) := Script.runTopS W script { bits := bytesToBits bytes.toList, pos := 0 }
+      "R " ++ " ".intercalate outs ++ s!" rem={c.bits.length}"
+    else
+      let (outs, r) := Script.runTopR W script { src := bytes.toList, buf := [], bitsRead := 0 }
+      "R " ++ " ".intercalate outs ++ s!" rem={r.bits.length}"
+  | _, _ => "bad-op"
+
 def runLine (line : String) : String :=
   let toks := line.trimAscii.toString.splitOn " "
   match DriverUnits.run toks with
@@ -185,6 +198,8 @@ def runLine (line : String) : String :=
       s!"Y {hex px}"
     | _, _, _, _ => "bad-op"
   | ["H", o, ph, h] => (match o.toNat? with | some o => runH o ph h | none => "bad-op")
+  | ["R", w, src, ops] => runR false w src ops
+  | ["RS", w, src, ops] => runR true w src ops
   | ["PP", o, h] => (match o.toNat? with | some o => runPP o h | none => "bad-op")
   | "S" :: _ :: rest => runS (" ".intercalate rest)
   | ["P", o, ops] => (match o.toNat? with | some o => runP false o ops | none => "bad-op")
